@@ -94,7 +94,15 @@ pub enum LazerExtra {
     TenKeys,
     /// lazer-only Daycore (no legacy bit), with an optional speed change
     Daycore(Option<f64>),
+    /// speed change for the rate mod with the given acronym only
+    RateOf(&'static str, f64),
+    /// any other lazer-only mod by acronym (Blinds, Traceable, Muted, ...); skipped when the mode lacks it
+    Acronym(&'static str),
 }
+
+/// Acronyms for `LazerExtra::Acronym`: the two lazer-only mods the calculators look at and a few they must ignore.
+/// (Blinds and Traceable, which the osu! performance calculator reads, are listed more than once.)
+pub const LAZER_ACRONYMS: [&str; 10] = ["BL", "TC", "MU", "BL", "NS", "TC", "AL", "BL", "SG", "WG"];
 
 #[derive(Clone, Debug, PartialEq)]
 pub struct ModsSpec {
@@ -192,6 +200,19 @@ impl ModsSpec {
                 LazerExtra::Rate(r) => {
                     for m in mods.iter_mut() {
                         set_speed(m, *r);
+                    }
+                }
+                LazerExtra::RateOf(acr, r) => {
+                    for m in mods.iter_mut() {
+                        if m.acronym().as_str() == *acr {
+                            set_speed(m, *r);
+                        }
+                    }
+                }
+                LazerExtra::Acronym(a) => {
+                    let m = GameMod::new(a, mm);
+                    if !matches!(m, GameMod::UnknownOsu(_) | GameMod::UnknownTaiko(_) | GameMod::UnknownCatch(_) | GameMod::UnknownMania(_)) {
+                        mods.insert(m);
                     }
                 }
             }
@@ -438,6 +459,9 @@ pub fn gen_diff(t: &mut Tape, p: &DiffProfile, mode: GameMode) -> DiffSpec {
             };
             extras.push(LazerExtra::Rate(r));
         }
+        if t.chance(1, 3) {
+            extras.push(LazerExtra::Acronym(*t.pick(&LAZER_ACRONYMS)));
+        }
     }
     let clock_rate = if t.chance(1, 3) {
         Some(if p.realistic {
@@ -523,6 +547,8 @@ impl LazerExtra {
             Self::DifficultyAdjust(a, c, h, o) => json!(["DA", ofj(*a), ofj(*c), ofj(*h), ofj(*o)]),
             Self::Rate(r) => json!(["Rate", fj(*r)]),
             Self::Daycore(r) => json!(["Daycore", ofj(*r)]),
+            Self::Acronym(a) => json!(["Acronym", a]),
+            Self::RateOf(a, r) => json!(["RateOf", a, fj(*r)]),
         }
     }
 
@@ -543,6 +569,8 @@ impl LazerExtra {
             "DA" => Self::DifficultyAdjust(a.get(1).and_then(jf), a.get(2).and_then(jf), a.get(3).and_then(jf), a.get(4).and_then(jf)),
             "Rate" => Self::Rate(jf(a.get(1)?)?),
             "Daycore" => Self::Daycore(a.get(1).and_then(jf)),
+            "RateOf" => Self::RateOf(["DT", "NC", "HT", "DC"].iter().copied().find(|x| Some(*x) == a.get(1).and_then(Value::as_str))?, jf(a.get(2)?)?),
+            "Acronym" => Self::Acronym(LAZER_ACRONYMS.iter().copied().find(|x| Some(*x) == a.get(1).and_then(Value::as_str))?),
             _ => return None,
         })
     }
